@@ -347,7 +347,13 @@ pub fn c10(rep: &mut Rep, seed: u64) {
         let w = crate::factors("PENINSULA");
         let ep = energy_performance(&c, &w, 0.5, 2.0, true).map_err(|e| format!("{}", e))?;
         let b = &ep.balance;
-        Ok(vec![b.used.epus, b.used.nepus, b.prod.an, b.del.an, b.exp.an, b.we.a.ren, b.we.a.nren, b.we.b.ren, b.we.b.nren, b.we.b.co2, ep.rer, ep.rer_nrb])
+        let mut v = vec![b.used.epus, b.used.nepus, b.prod.an, b.del.an, b.exp.an, b.we.a.ren, b.we.a.nren, b.we.b.ren, b.we.b.nren, b.we.b.co2, ep.rer, ep.rer_nrb];
+        for s in Service::SERVICES_ALL {
+            v.push(b.used.epus_by_srv.get(&s).copied().unwrap_or(0.0));
+            v.push(b.we.b_by_srv.get(&s).map(|r| r.nren).unwrap_or(0.0));
+            v.push(b.we.a_by_srv.get(&s).map(|r| r.ren).unwrap_or(0.0));
+        }
+        Ok(v)
     };
     for base in bases {
         let want = match sig(base) { Ok(s) => s, Err(e) => { rep.fail("C10.base", base, e); continue; } };
@@ -357,19 +363,19 @@ pub fn c10(rep: &mut Rep, seed: u64) {
         variants.push(("comments, blank lines, header, BOM, whitespace".into(), format!("\u{feff}# comment\nvector, tipo, src_dst\n\n{}\n  \n# end", lines.iter().map(|l| format!("  {} # c", l.replace(',', " , "))).collect::<Vec<_>>().join("\n\n"))));
         variants.push(("ids renumbered".into(), lines.iter().map(|l| { let (id, rest) = l.split_once(',').unwrap(); format!("{},{}", id.parse::<i32>().unwrap() * 7 + 100, rest) }).collect::<Vec<_>>().join("\n")));
         variants.push(("id 0 omitted".into(), lines.iter().map(|l| if l.starts_with("0,") { l[2..].to_string() } else { l.to_string() }).collect::<Vec<_>>().join("\n")));
-        // split the first consumption line in two lines that add up
-        if let Some(p) = lines.iter().position(|l| l.contains("CONSUMO")) {
+        // split each line in turn in two lines with the same tags whose values add up
+        for p in 0..lines.len() {
             let parts: Vec<&str> = lines[p].split(',').collect();
-            let k = parts.iter().position(|x| x.parse::<f32>().is_ok() && x.contains(|c: char| c.is_ascii_digit()) && parts[0] != *x).unwrap_or(4);
-            let head = parts[..4].join(",");
-            let vals: Vec<f32> = parts[4..].iter().map(|x| x.parse().unwrap()).collect();
-            let _ = k;
+            let first_val = parts.iter().enumerate().position(|(i, x)| i >= 2 && x.trim().parse::<f32>().is_ok()).unwrap_or(parts.len());
+            if first_val >= parts.len() { continue; }
+            let head = parts[..first_val].join(",");
+            let vals: Vec<f32> = parts[first_val..].iter().map(|x| x.trim().parse().unwrap()).collect();
             let a: Vec<String> = vals.iter().map(|v| format!("{}", v * 0.25)).collect();
             let b: Vec<String> = vals.iter().map(|v| format!("{}", v * 0.75)).collect();
             let mut l: Vec<String> = lines.iter().map(|s| s.to_string()).collect();
             l[p] = format!("{},{}", head, a.join(","));
-            l.push(format!("{},{}", head, b.join(",")));
-            variants.push(("one component split in two lines".into(), l.join("\n")));
+            l.insert(if p % 2 == 0 { 0 } else { lines.len() }, format!("{},{}", head, b.join(",")));
+            variants.push((format!("line {} split in two lines", p + 1), l.join("\n")));
         }
         for (name, t) in variants {
             rep.evals += 1;
